@@ -246,8 +246,18 @@ func (m *SessionManager) RemoveSession(id uint16) {
 	defer m.mu.Unlock()
 
 	if session, ok := m.sessions[id]; ok {
-		delete(m.macToSession, session.ClientMAC.String())
+		m.unindexMAC(session)
 		delete(m.sessions, id)
+	}
+}
+
+// unindexMAC removes the MAC index entry of a session, unless the entry already
+// belongs to a newer session of the same client MAC (which must stay reachable).
+// Caller holds m.mu.
+func (m *SessionManager) unindexMAC(session *Session) {
+	key := session.ClientMAC.String()
+	if indexed, ok := m.macToSession[key]; ok && indexed == session.ID {
+		delete(m.macToSession, key)
 	}
 }
 
@@ -284,7 +294,7 @@ func (m *SessionManager) CleanupExpired(timeout time.Duration) int {
 		session.mu.RUnlock()
 
 		if inactive {
-			delete(m.macToSession, session.ClientMAC.String())
+			m.unindexMAC(session)
 			delete(m.sessions, id)
 			removed++
 		}
